@@ -479,9 +479,11 @@ func (vt *Model) print(seq ansi.Print) {
 
 	if vt.mode.irm {
 		line := vt.activeScreen[rw]
+		vt.splitWide(rw, col)
 		for i := vt.margin.right; i >= col+column(w); i -= 1 {
 			line[i] = line[i-column(w)]
 		}
+		vt.trimWide(rw)
 	}
 	if col > column(vt.width())-1 {
 		col = column(vt.width()) - 1
